@@ -2,25 +2,24 @@
 """Generates MANIFEST.json from the table below (single source of truth for check registration)."""
 import json
 import os
+import re
 import subprocess
 
 ROOT = os.path.dirname(os.path.dirname(os.path.abspath(__file__)))
 
-CHECKS = {
-    "C04": dict(
-        engine="router",
-        technique="TLA+ spec (Router.tla) model-checked with TLC; TLC-generated states replayed into the real Router under every insertion order",
-        level="model_checking",
-        text=("TLC exhaustively checks the routing spec (admissible-answer relation, non-matching frontends irrelevant, removed "
-              "frontends never serve) on all states with <=2 (quick) / <=3 (thorough) frontends of an 84-frontend universe; "
-              "every such state is then reached on the real sozu_lib Router through every insertion order of its tree "
-              "members plus detours, and all 40 probe requests are compared with the spec after each history. Exhaustive "
-              "within the universe, which is where order- and identity-dependent defects live."),
-        note=("Trusts: the concretisation table (model host/path/regex -> strings) and that cluster ids identify frontends. "
-              "Universe is small (5 hosts, 4 paths, 2 methods, one regex label, one regex path); REGEX-vs-REGEX ties are excluded "
-              "because the documentation declares them undefined."),
-        design="3/C04"),
-}
+def load_checks():
+    """One fragment per property: tools/props/cXX.json with keys engine, technique, level, text, note, design
+    (optional: not_applicable reason instead)."""
+    out = {}
+    d = os.path.join(ROOT, "tools", "props")
+    for fn in sorted(os.listdir(d)):
+        if re.match(r"^c\d+\.json$", fn):
+            with open(os.path.join(d, fn)) as f:
+                out[fn[:-5].upper()] = json.load(f)
+    return out
+
+
+CHECKS = load_checks()
 
 NOT_YET = {}
 
